@@ -147,6 +147,13 @@ def error_codes() -> tuple[int, ...]:
     return tuple(sorted(int(e) for e in ErrorCode))
 
 
+@functools.lru_cache(maxsize=None)
+def api_keys() -> tuple[int, ...]:
+    from kio.schema.index import api_key_map
+
+    return tuple(sorted(int(k) for k in api_key_map))
+
+
 def scalar_strategy(kind: str, profile: Profile, flexible: bool, legacy_string: bool):
     if kind in INT_RANGES:
         return int_strategy(*INT_RANGES[kind])
@@ -224,6 +231,9 @@ def field_value(draw, cd: ClassDesc, f: FieldDesc, profile: Profile, depth: int)
 
             return zero_tree(f.struct)  # all zeros / empty - NOT the default when the struct declares defaults such as -1
         return draw(tree_strategy(f.struct, profile, depth + 1))
+    if cd.is_request_header and f.name == "request_api_key" and f.kind == "int16" and draw(st.integers(0, 2)) != 0:
+        # headers as real clients send them: a drawn int16 names a real API about once in 700 draws (seed C06-n keyed on 7)
+        return draw(st.sampled_from(api_keys()))
     nullable = f.nullable or legacy_string
     if nullable and f.kind != "uuid" and draw(st.integers(0, 2)) == 0:
         return None
